@@ -87,6 +87,9 @@ fn run_exec<C: CellType, E: Executable<C>>(case: &Case, world: *mut World, exec:
         let base = ctx.memory.current_ptr() as usize - (a as usize) * (C::BITS as usize / 8);
         pregrown = Some((base, ((a + b) as usize) * (C::BITS as usize / 8)));
     }
+    if let Some(d) = case.far_move {
+        ctx.memory.mov(d as isize);
+    }
     let r = catch_unwind(AssertUnwindSafe(|| match case.mode {
         Mode::Execute => exec.execute(&mut ctx).map(|_| true),
         Mode::Limited(b) => {
